@@ -1,158 +1,10 @@
-(* C14 -- an exception raised in request handling is rendered by the most specific exception view.
-   Executable definitions only.  Sources followed (pinned in harness/c14/pins.json):
-     pyramid/tweens.py        excview_tween_factory.excview_tween, _error_handler
-     pyramid/view.py          ViewMethodsMixin.invoke_exception_view   (_find_views/_call_view: Model/C03.v)
-     pyramid/util.py          hide_attrs
-     pyramid/config/views.py  add_view.register (normal / exception registration split), add_exception_view,
-                              add_notfound_view, add_forbidden_view, isexception   (register_view/MultiView: Model/C03.v)
-     pyramid/config/__init__.py  Configurator.setup_registry (default exception-response views)
-     pyramid/httpexceptions.py   default_exceptionresponse_view
-     pyramid/router.py        Router.handle_request (outcome of the ordinary lookup), Router.invoke_request
-   The registration record, MultiView, find_views and call_view are those of Model/C03.v (imported, classifier 1).
-   Oracle inputs (computed with zope.interface / isinstance by the harness): providedBy(exc).__sro__ of every
-   exception object, request_iface.__sro__, request_iface.combined.__sro__, isinstance tables, status codes. *)
+(* C14 -- Model/C14_base.v (types, primitives, hand-written reference model, judge) re-exported, plus what depends
+   on the regenerated Gen/Facts_C14.v: the code's parameter record and the wire glue. *)
 From Coq Require Import List NArith ZArith Bool.
 Import ListNotations.
-Require Import Verif.Lib.Wire Verif.Gen.Facts_C03 Verif.Model.C03 Verif.Gen.Facts_C14.
-
-(* ------------------------------------------------------------------ *)
-(* request attribute map: request.__dict__ restricted to opaque values *)
-
-Definition amap := list (text * N).
-Definition aget (k : text) (m : amap) : option N := assoc k m.
-Fixpoint aset (k : text) (v : N) (m : amap) : amap :=
-  match m with
-  | [] => [(k, v)]
-  | (k', v') :: r => if text_eqb k k' then (k, v) :: r else (k', v') :: aset k v r
-  end.
-Fixpoint adel (k : text) (m : amap) : amap :=
-  match m with
-  | [] => []
-  | (k', v') :: r => if text_eqb k k' then adel k r else (k', v') :: adel k r
-  end.
-
-(* saved_vals: a dict name -> popped value or _marker (None) *)
-Definition saved := list (text * option N).
-Fixpoint sset (k : text) (v : option N) (s : saved) : saved :=
-  match s with
-  | [] => [(k, v)]
-  | (k', v') :: r => if text_eqb k k' then (k, v) :: r else (k', v') :: sset k v r
-  end.
-
-(* for name in attrs: saved_vals[name] = obj_vals.pop(name, _marker) *)
-Fixpoint hide_pop (names : list text) (m : amap) (s : saved) : amap * saved :=
-  match names with
-  | [] => (m, s)
-  | n :: r => hide_pop r (adel n m) (sset n (aget n m) s)
-  end.
-
-(* finally: for name in attrs: restore the saved value, or delete what the body left *)
-Fixpoint hide_restore (names : list text) (s : saved) (m : amap) : amap :=
-  match names with
-  | [] => m
-  | n :: r =>
-      hide_restore r s (match assoc n s with
-                        | Some (Some v) => aset n v m
-                        | _ => adel n m
-                        end)
-  end.
-
-(* with hide_attrs(obj, *names): body   -- the body may return or raise; the finally clause runs either way *)
-Definition hide_attrs {A} (names : list text) (body : amap -> A * amap) (m : amap) : A * amap :=
-  let '(m1, s) := hide_pop names m [] in
-  let '(a, m2) := body m1 in
-  (a, hide_restore names s m2).
-
-(* ------------------------------------------------------------------ *)
-(* exception objects, view bodies, outcomes, the observable trace *)
-
-Record exc := mkExc {
-  x_id : N;
-  x_sro : list N;          (* (oracle) providedBy(object).__sro__ *)
-  x_isa : list text;       (* (oracle) names of the classes in the harness table the object is an instance of *)
-  x_status : N             (* status code when the object is a response, 0 otherwise *)
-}.
-Fixpoint find_exc (tbl : list exc) (id : N) : exc :=
-  match tbl with
-  | [] => mkExc id [] [] 0
-  | x :: r => if N.eqb (x_id x) id then x else find_exc r id
-  end.
-
-Inductive action :=
-| ARet                    (* returns a new response *)
-| ARetCtx                 (* default_exceptionresponse_view: returns its context *)
-| ARaise (e : N).         (* raises the exception object e *)
-Record body := mkBody { b_touch : bool; b_act : action; b_perm : bool }.
-Definition no_body : body := mkBody false ARet false.
-Fixpoint body_of (tbl : list (N * body)) (tag : N) : body :=
-  match tbl with [] => no_body | (t, b) :: r => if N.eqb t tag then b else body_of r tag end.
-
-Inductive resp := RView (tag : N) | RExc (e : N).
-Inductive outcome := Resp (r : resp) | Raise (e : N).
-
-Definition snapshot := list (option N).
-Inductive event :=
-| EBody (tag ctx : N) (s : snapshot)                              (* a view body ran and saw ... *)
-| EIev (e : N) (before : snapshot) (o : outcome) (after : snapshot)  (* request.invoke_exception_view() called by a tween *)
-| EProbe (o : outcome) (s : snapshot)                             (* what reaches the excview tween from below *)
-| EFinal (o : outcome) (s : snapshot) (fin : option N).           (* what leaves it; request.exception in a finished callback *)
-
-Record state := mkSt { st_attrs : amap; st_log : list event }.
-
-(* public attribute names (the harness observes these three, in this order) *)
-Definition hn_response : text := [114; 101; 115; 112; 111; 110; 115; 101]%N.
-Definition hn_exc_info : text := [101; 120; 99; 95; 105; 110; 102; 111]%N.
-Definition hn_exception : text := [101; 120; 99; 101; 112; 116; 105; 111; 110]%N.
-Definition snap_names : list text := [hn_response; hn_exc_info; hn_exception].
-Definition snap (m : amap) : snapshot := map (fun n => aget n m) snap_names.
-
-(* identities of objects created by the framework / harness *)
-Definition id_h_nf : N := 1000%N.        (* HTTPNotFound raised by Router.handle_request *)
-Definition id_h_pme : N := 1001%N.       (* PredicateMismatch re-raised by the ordinary _call_view *)
-Definition id_h_forb : N := 1002%N.      (* HTTPForbidden raised by a secured ordinary view *)
-Definition fresh_nf (site : N) : N := (1010 + 10 * site)%N.    (* raise HTTPNotFound in invoke_exception_view *)
-Definition fresh_pme (site : N) : N := (1011 + 10 * site)%N.   (* PredicateMismatch of the exception-view lookup *)
-Definition fresh_ve (site : N) : N := (1012 + 10 * site)%N.    (* ValueError: view result is not a response *)
-Definition fresh_forb (site : N) : N := (1013 + 10 * site)%N.  (* HTTPForbidden of a secured exception view *)
-Definition fresh_unknown (site : N) : N := (1019 + 10 * site)%N.
-Definition site_under : N := 0%N.   Definition site_tween : N := 1%N.   Definition site_main : N := 2%N.
-Definition ctx_resource : N := 3000%N.
-Definition resp_obj (tag : N) : N := (2000 + tag)%N.
-Definition exc_classifier_id : N := 1%N.
-
-Definition cn_HTTPNotFound : text := [72; 84; 84; 80; 78; 111; 116; 70; 111; 117; 110; 100]%N.
-Definition cn_HTTPForbidden : text := [72; 84; 84; 80; 70; 111; 114; 98; 105; 100; 100; 101; 110]%N.
-Definition cn_Exception : text := [69; 120; 99; 101; 112; 116; 105; 111; 110]%N.
-Definition cn_Interface : text := [73; 110; 116; 101; 114; 102; 97; 99; 101]%N.
-Definition cn_IRequest : text := [73; 82; 101; 113; 117; 101; 115; 116]%N.
-Definition cn_IExceptionResponse : text :=
-  [73; 69; 120; 99; 101; 112; 116; 105; 111; 110; 82; 101; 115; 112; 111; 110; 115; 101]%N.
-Definition cn_WebobWSGIHTTPException : text :=
-  [87; 101; 98; 111; 98; 87; 83; 71; 73; 72; 84; 84; 80; 69; 120; 99; 101; 112; 116; 105; 111; 110]%N.
-
-(* ------------------------------------------------------------------ *)
-(* what the code says (regenerated facts) vs what the property says: one record, two values *)
-
-Record params := mkP {
-  p_hidden : list text;        (* hide_attrs(request, ...) *)
-  p_set_in : list text;        (* attrs[...] = exc / exc_info inside the with-block *)
-  p_set_after : list text;     (* ... after a response was produced *)
-  p_combined : bool;           (* exception views are looked up with request_iface.combined *)
-  p_view_name : text;
-  p_none_raises : text;        (* invoke_exception_view: raise X when no response *)
-  p_iev_catches : text;        (* except X: if reraise: reraise original *)
-  p_handler_catches : text;    (* _error_handler: except X: reraise(original) *)
-  p_handler_reraises : bool;
-  p_tween_catches : text;      (* excview_tween: except X *)
-  p_defaults : list text;      (* contexts of the default exception-response view *)
-  p_nf : text * bool;          (* add_notfound_view: context, exception_only *)
-  p_fb : text * bool;
-  p_exc : text * bool;         (* add_exception_view: default context, exception_only *)
-  p_default_view_ctx : bool;   (* default_exceptionresponse_view returns its context *)
-  p_perm_checks : bool;        (* _call_view(secure=False) checks the predicates of a single secured view *)
-  p_nf_fw : list text;         (* predicate arguments add_notfound_view forwards to add_view *)
-  p_fb_fw : list text          (* ... add_forbidden_view *)
-}.
+Require Import Verif.Lib.Wire Verif.Gen.Facts_C03 Verif.Model.C03.
+Require Export Verif.Model.C14_base.
+Require Import Verif.Gen.Facts_C14.
 
 Definition code_params : params :=
   mkP hidden_names set_in_with set_after uses_combined exc_view_name iev_none_raises iev_reraise_catches
@@ -160,675 +12,22 @@ Definition code_params : params :=
       (nf_context, nf_exception_only) (fb_context, fb_exception_only) (exc_default_context, exc_exception_only)
       default_view_returns_context permissive_checks_predicates nf_forwards fb_forwards.
 
-(* the predicate parameters of add_notfound_view / add_forbidden_view (custom = custom_predicates): all forwarded *)
-Definition directive_preds : list text :=
-  [nm_request_method; nm_request_param; nm_containment; nm_xhr; nm_accept; nm_header; nm_path_info; nm_custom;
-   nm_match_param].
 
-(* [b]: whether a permissive call honours predicates; the property's value is true *)
-Definition spec_params_b (b : bool) : params :=
-  mkP [hn_response; hn_exc_info; hn_exception] [hn_exception; hn_exc_info] [hn_exception; hn_exc_info]
-      true [] cn_HTTPNotFound cn_Exception cn_HTTPNotFound true cn_Exception
-      [cn_IExceptionResponse; cn_WebobWSGIHTTPException]
-      (cn_HTTPNotFound, true) (cn_HTTPForbidden, true) (cn_Exception, true) true b directive_preds directive_preds.
-Definition spec_params : params := spec_params_b true.
-
-(* ------------------------------------------------------------------ *)
-(* configuration: directives -> registrations *)
-
-Inductive directive := DView | DExcView | DNotFound | DForbidden.
-
-Record vdecl := mkDecl {
-  d_dir : directive;
-  d_ctx : option N;            (* context= as given *)
-  d_xonly : bool;              (* exception_only= (add_view) *)
-  d_isexc : bool;              (* (oracle) isexception(context as given) *)
-  d_args : view_args;          (* C03: request iface, name, predicates, secured, tag; a_ctx is recomputed *)
-  d_phase : N;
-  d_body : body
-}.
-
-Definition named := list (text * N).                     (* class / interface name -> id *)
-Definition named_id (nm : named) (k : text) : N := match assoc k nm with Some i => i | None => 0%N end.
-
-(* effective (context, exception_only, isexc) of a directive *)
-Definition effective_ctx (P : params) (nm : named) (d : vdecl) : N * bool * bool :=
-  match d_dir d with
-  | DView => (match d_ctx d with Some c => c | None => named_id nm cn_Interface end, d_xonly d,
-              match d_ctx d with Some _ => d_isexc d | None => false end)
-  | DExcView => (match d_ctx d with Some c => c | None => named_id nm (fst (p_exc P)) end, snd (p_exc P),
-                 match d_ctx d with Some _ => d_isexc d | None => true end)
-  | DNotFound => (named_id nm (fst (p_nf P)), snd (p_nf P), true)
-  | DForbidden => (named_id nm (fst (p_fb P)), snd (p_fb P), true)
-  end.
-
-(* the keyword arguments that reach add_view: the two directives name the arguments they pass on *)
-Definition forwarded_kw (P : params) (d : directive) (kw : kwargs) : kwargs :=
-  match d with
-  | DNotFound => filter (fun e => mem_text (fst e) (p_nf_fw P)) kw
-  | DForbidden => filter (fun e => mem_text (fst e) (p_fb_fw P)) kw
-  | _ => kw
-  end.
-Definition forwarded_args (P : params) (d : directive) (a : view_args) : view_args :=
-  mkArgs (a_req a) (a_ctx a) (a_name a) (forwarded_kw P d (a_kw a)) (a_accept a) (a_secured a) (a_tag a).
-
-Definition with_ctx (a : view_args) (c : N) : view_args :=
-  mkArgs (a_req a) c (a_name a) (a_kw a) (a_accept a) (a_secured a) (a_tag a).
-
-Definition opt_list {A} (o : option A) : list A := match o with Some x => [x] | None => [] end.
-
-(* add_view: ConfigurationError when exception_only and not an exception context; otherwise
-   "if not exception_only: register under IViewClassifier; if isexc: register under IExceptionViewClassifier" *)
-Definition regs_of_decl (P : params) (names : list text) (nm : named) (d : vdecl) : list reg :=
-  let '(c, xonly, isexc) := effective_ctx P nm d in
-  let a := with_ctx (forwarded_args P (d_dir d) (d_args d)) c in
-  if xonly && negb isexc then []
-  else (if xonly then [] else opt_list (reg_of_args names view_classifier a))
-       ++ (if isexc then opt_list (reg_of_args names exc_classifier_id a) else []).
-
-(* the harness passes ONE instrumented exceptionresponse_view to the Configurator: every default registration carries its tag *)
-Definition default_tag (i : nat) : N := 900%N.
-
-(* Configurator.setup_registry: self.add_view(exceptionresponse_view, context=X) for each X *)
-Fixpoint default_decls (nm : named) (ctxs : list text) (i : nat) : list vdecl :=
-  match ctxs with
-  | [] => []
-  | c :: r =>
-      mkDecl DView (Some (named_id nm c)) false true
-             (mkArgs (named_id nm cn_IRequest) 0 [] [] None false (default_tag i)) 0 (mkBody false ARetCtx false)
-      :: default_decls nm r (S i)
-  end.
-
-Definition all_decls (P : params) (nm : named) (user : list vdecl) : list vdecl :=
-  default_decls nm (p_defaults P) 0 ++ user.
-
-Definition decls_upto (ph : N) (l : list vdecl) : list vdecl := filter (fun d => N.leb (d_phase d) ph) l.
-
-Definition regs_upto (P : params) (names : list text) (nm : named) (user : list vdecl) (ph : N) : list reg :=
-  flat_map (regs_of_decl P names nm) (decls_upto ph (all_decls P nm user)).
-
-Definition bodies_of (P : params) (nm : named) (user : list vdecl) : list (N * body) :=
-  map (fun d => (a_tag (d_args d), d_body d)) (all_decls P nm user).
-
-(* ------------------------------------------------------------------ *)
-(* one request *)
-
-Inductive under_prog :=
-| UPass                                   (* return handler(request) *)
-| URaise (e : N)                          (* raise e without calling the handler *)
-| UCatch (rr sec : bool) (thn : option N). (* try: r = handler(request)
-                                             except Exception: r = request.invoke_exception_view(reraise=rr, secure=sec)
-                                             then raise thn, or return r *)
-
-Record rinfo := mkRI {
-  ri_req : request;            (* C03: ordinary lookup *)
-  ri_comb_sro : list N;        (* (oracle) request_iface.combined.__sro__ *)
-  ri_unrouted_sro : list N;    (* (oracle) IRequest.combined.__sro__: request_iface is set by the router, below the tweens *)
-  ri_deny : bool;              (* the security policy refuses *)
-  ri_root_raise : option N;    (* the root factory raises *)
-  ri_under : under_prog;
-  ri_preset : option N         (* request.exception / exc_info set by a tween above before the handler runs *)
-}.
-
-Record world := mkWorld { w_reg : registry; w_bodies : list (N * body); w_excs : list exc }.
-
-Definition isa (W : world) (cls : text) (e : N) : bool := mem_text cls (x_isa (find_exc (w_excs W) e)).
-Definition status_of (W : world) (e : N) : N := x_status (find_exc (w_excs W) e).
-
-Definition add_log (st : state) (ev : event) : state := mkSt (st_attrs st) (st_log st ++ [ev]).
-
-(* default_exceptionresponse_view: "if not isinstance(context, Exception): context = request.exception or context" *)
-Definition cn_truthy : text := [116; 114; 117; 116; 104; 121]%N.     (* (oracle) bool(object) *)
-Definition ctx_returned (W : world) (ctx : N) (a : amap) : N :=
-  if isa W cn_Exception ctx then ctx
-  else match aget hn_exception a with Some p => if isa W cn_truthy p then p else ctx | None => ctx end.
-
-(* a (derived) view callable runs: secured_view (skipped through __call_permissive__ when not [sec]), then the body *)
-Definition run_body (P : params) (W : world) (sec deny : bool) (site tag ctx : N) (a : amap)
-    : outcome * list event * amap :=
-  let b := body_of (w_bodies W) tag in
-  if sec && b_perm b && deny then (Raise (if N.eqb site site_main then id_h_forb else fresh_forb site), [], a)
-  else
-    let ev := EBody tag ctx (snap a) in
-    let a1 := if b_touch b then aset hn_response (resp_obj tag) a else a in
-    match b_act b with
-    | ARet => (Resp (RView tag), [ev], a1)
-    | ARetCtx =>
-        let c := ctx_returned W ctx a in
-        if p_default_view_ctx P && negb (N.eqb (status_of W c) 0) then (Resp (RExc c), [ev], a1)
-        else (Raise (fresh_ve site), [ev], a1)
-    | ARaise e => (Raise e, [ev], a1)
-    end.
-
-(* _call_view(secure=False): "view_callable = getattr(view_callable, '__call_permissive__', view_callable)".
-   A secured single view carries the __call_permissive__ of its innermost secured_view wrapper (copied outwards by
-   preserve_view_attrs, also over predicated_view): its body runs WITHOUT the predicate check.  A MultiView's
-   __call_permissive__ matches by predicates first.  An unsecured view has no such attribute. *)
-Definition call_component_p (P : params) (rq : request) (c : component) : option N :=
-  match c with
-  | CView v => if r_secured v && negb (p_perm_checks P) then Some (r_tag v) else call_reg rq v
-  | CMulti m => mv_call rq (get_views m rq)
-  end.
-Fixpoint call_loop_p (P : params) (rq : request) (l : list component) (pme : bool) : result :=
-  match l with
-  | [] => if pme then NotFoundPme else NotFoundNone
-  | c :: r => match call_component_p P rq c with Some t => Ran t | None => call_loop_p P rq r true end
-  end.
-Definition call_view_sec (P : params) (R : registry) (sec : bool) (cls : N) (rq : request) : result :=
-  if sec then call_view R cls rq
-  else call_loop_p P rq (find_views R cls (q_req_sro rq) (q_ctx_sro rq) (q_view_name rq)) false.
-
-(* the request as seen by the exception-view lookup: context = the exception object *)
-Definition exc_request (P : params) (W : world) (ri : rinfo) (e : N) : request :=
-  let q := ri_req ri in
-  mkReq (q_method q) (q_params q) (q_headers q) (q_xhr q)
-        (match ri_under ri with URaise _ => None | _ => q_matchdict q end)   (* no route matched yet: matchdict is None *)
-        (q_auth q) (q_upath q)
-        [] false (q_regex q) (q_accept_q q) (q_truth q)
-        (match ri_under ri with
-         | URaise _ => ri_unrouted_sro ri        (* raised above the router: no route has been matched *)
-         | _ => if p_combined P then ri_comb_sro ri else q_req_sro q
-         end)
-        (x_sro (find_exc (w_excs W) e))
-        (p_view_name P).
-
-Definition fresh_of_class (cls : text) (site : N) : N :=
-  if text_eqb cls cn_HTTPNotFound then fresh_nf site else fresh_unknown site.
-
-Definition set_all (names : list text) (v : N) (a : amap) : amap := fold_left (fun a n => aset n v a) names a.
-
-(* ViewMethodsMixin.invoke_exception_view(exc_info, reraise=rr, secure=sec) for the exception object e.
-   The value of exc_info is represented by the object it carries (exc_info[1]). *)
-Definition iev (P : params) (W : world) (ri : rinfo) (site : N) (rr sec : bool) (e : N) (st : state)
-    : outcome * state :=
-  let '((res, evs), attrs') :=
-    hide_attrs (p_hidden P)
-      (fun a =>
-         let a := set_all (p_set_in P) e a in
-         match call_view_sec P (w_reg W) sec exc_classifier_id (exc_request P W ri e) with
-         | Ran tag =>
-             let '(o, evs, a2) := run_body P W sec (ri_deny ri) site tag e a in
-             ((Some o, evs), a2)
-         | NotFoundPme => ((Some (Raise (fresh_pme site)), []), a)
-         | NotFoundNone => ((None, []), a)
-         end)
-      (st_attrs st) in
-  let log := st_log st ++ evs in
-  match res with
-  | Some (Raise e2) =>
-      (* except Exception: if reraise: reraise_ original; raise *)
-      (Raise (if rr && isa W (p_iev_catches P) e2 then e else e2), mkSt attrs' log)
-  | None =>
-      (* if response is None: if reraise: reraise_ original; raise HTTPNotFound *)
-      (Raise (if rr then e else fresh_of_class (p_none_raises P) site), mkSt attrs' log)
-  | Some (Resp r) =>
-      (Resp r, mkSt (set_all (p_set_after P) e attrs') log)
-  end.
-
-(* Router.handle_request: root factory, traversal (oracle), ordinary view lookup and call *)
-Definition main_handler (P : params) (W : world) (ri : rinfo) (st : state) : outcome * state :=
-  match ri_root_raise ri with
-  | Some e => (Raise e, st)
-  | None =>
-      match call_view (w_reg W) view_classifier (ri_req ri) with
-      | Ran tag =>
-          let '(o, evs, a) := run_body P W true (ri_deny ri) site_main tag ctx_resource (st_attrs st) in
-          (o, mkSt a (st_log st ++ evs))
-      | NotFoundPme => (Raise id_h_pme, st)
-      | NotFoundNone => (Raise id_h_nf, st)
-      end
-  end.
-
-(* the harness tween under the excview tween *)
-Definition under_tween (P : params) (W : world) (ri : rinfo) (st : state) : outcome * state :=
-  match ri_under ri with
-  | UPass => main_handler P W ri st
-  | URaise e => (Raise e, st)
-  | UCatch rr sec thn =>
-      let '(o, st1) := main_handler P W ri st in
-      let '(o2, st2) :=
-        match o with
-        | Raise e =>
-            if isa W cn_Exception e then
-              let '(o2, st2) := iev P W ri site_under rr sec e st1 in
-              (o2, add_log st2 (EIev e (snap (st_attrs st1)) o2 (snap (st_attrs st2))))
-            else (o, st1)
-        | Resp _ => (o, st1)
-        end in
-      match o2, thn with
-      | Resp _, Some e2 => (Raise e2, st2)
-      | _, _ => (o2, st2)
-      end
-  end.
-
-(* excview_tween + _error_handler, given what the handler below produced *)
-Definition excview_tween (P : params) (W : world) (ri : rinfo) (o : outcome) (st : state) : outcome * state :=
-  match o with
-  | Resp r => (Resp r, st)
-  | Raise e =>
-      if isa W (p_tween_catches P) e then
-        match iev P W ri site_tween false true e st with
-        | (Resp r, st') => (Resp r, st')
-        | (Raise e2, st') =>
-            if isa W (p_handler_catches P) e2
-            then (Raise (if p_handler_reraises P then e else e2), st')
-            else (Raise e2, st')
-        end
-      else (Raise e, st)
-  end.
-
-Definition init_attrs (ri : rinfo) : amap :=
-  match ri_preset ri with
-  | Some p => aset hn_exc_info p (aset hn_exception p [])
-  | None => []
-  end.
-
-Definition run_request (P : params) (W : world) (ri : rinfo) : list event :=
-  let st0 := mkSt (init_attrs ri) [] in
-  let '(o1, st1) := under_tween P W ri st0 in
-  let st1 := add_log st1 (EProbe o1 (snap (st_attrs st1))) in
-  let '(o2, st2) := excview_tween P W ri o1 st1 in
-  st_log st2 ++ [EFinal o2 (snap (st_attrs st2)) (aget hn_exception (st_attrs st2))].
-
-(* ------------------------------------------------------------------ *)
-(* the same pipeline with view bodies that may raise PredicateMismatch: for _call_view and MultiView.__call__ such
-   a body is a predicate mismatch -- the search goes on after the body ran (its events and attribute changes
-   stay).  [comps_loop] follows _call_view over the components found by _find_views:
-   - a single view (secure: derived view = predicates, secured_view, body; not secure: __call_permissive__, with
-     the predicate check of the repaired text) -- its own PredicateMismatch object becomes [pme];
-   - a MultiView: secure -> __call__ (every view in turn, PredicateMismatch swallowed, a NEW PredicateMismatch at
-     the end); not secure -> __call_permissive__ (match by predicates, then the one body; its PredicateMismatch
-     leaves the MultiView);
-   - "if pme is not None: raise pme" re-raises the LAST one.
-   Proofs/C14_d.v: when no body outcome is a PredicateMismatch this is the pipeline above. *)
-Definition cn_PredicateMismatch : text :=
-  [80; 114; 101; 100; 105; 99; 97; 116; 101; 77; 105; 115; 109; 97; 116; 99; 104]%N.
-Definition is_pm (W : world) (o : outcome) : option N :=
-  match o with Raise e => if isa W cn_PredicateMismatch e then Some e else None | _ => None end.
-
-Fixpoint views_loop (P : params) (W : world) (deny : bool) (site ctx : N) (rq : request) (l : list reg)
-    (a : amap) (evs : list event) : option outcome * list event * amap :=
-  match l with
-  | [] => (None, evs, a)
-  | v :: r =>
-      if qualifies rq v then
-        let '(o, ev, a') := run_body P W true deny site (r_tag v) ctx a in
-        match is_pm W o with
-        | Some _ => views_loop P W deny site ctx rq r a' (evs ++ ev)
-        | None => (Some o, evs ++ ev, a')
-        end
-      else views_loop P W deny site ctx rq r a evs
-  end.
-
-Fixpoint comps_loop (P : params) (W : world) (sec deny : bool) (site ctx fpme : N) (rq : request)
-    (l : list component) (pme : option N) (a : amap) (evs : list event) : option outcome * list event * amap :=
-  match l with
-  | [] => (match pme with Some p => Some (Raise p) | None => None end, evs, a)
-  | CView v :: r =>
-      if qualifies rq v || (negb sec && r_secured v && negb (p_perm_checks P)) then
-        let '(o, ev, a') := run_body P W sec deny site (r_tag v) ctx a in
-        match is_pm W o with
-        | Some p => comps_loop P W sec deny site ctx fpme rq r (Some p) a' (evs ++ ev)
-        | None => (Some o, evs ++ ev, a')
-        end
-      else comps_loop P W sec deny site ctx fpme rq r (Some fpme) a evs
-  | CMulti m :: r =>
-      if sec then
-        match views_loop P W deny site ctx rq (map e_view (get_views m rq)) a evs with
-        | (Some o, evs', a') => (Some o, evs', a')
-        | (None, evs', a') => comps_loop P W sec deny site ctx fpme rq r (Some fpme) a' evs'
-        end
-      else
-        match find (qualifies rq) (map e_view (get_views m rq)) with
-        | None => comps_loop P W sec deny site ctx fpme rq r (Some fpme) a evs
-        | Some v =>
-            let '(o, ev, a') := run_body P W sec deny site (r_tag v) ctx a in
-            match is_pm W o with
-            | Some p => comps_loop P W sec deny site ctx fpme rq r (Some p) a' (evs ++ ev)
-            | None => (Some o, evs ++ ev, a')
-            end
-        end
-  end.
-
-Definition iev_pm (P : params) (W : world) (ri : rinfo) (site : N) (rr sec : bool) (e : N) (st : state)
-    : outcome * state :=
-  let '((res, evs), attrs') :=
-    hide_attrs (p_hidden P)
-      (fun a =>
-         let a := set_all (p_set_in P) e a in
-         let rq := exc_request P W ri e in
-         let '(res, evs, a2) :=
-           comps_loop P W sec (ri_deny ri) site e (fresh_pme site) rq
-             (find_views (w_reg W) exc_classifier_id (q_req_sro rq) (q_ctx_sro rq) (q_view_name rq)) None a [] in
-         ((res, evs), a2))
-      (st_attrs st) in
-  let log := st_log st ++ evs in
-  match res with
-  | Some (Raise e2) => (Raise (if rr && isa W (p_iev_catches P) e2 then e else e2), mkSt attrs' log)
-  | None => (Raise (if rr then e else fresh_of_class (p_none_raises P) site), mkSt attrs' log)
-  | Some (Resp r) => (Resp r, mkSt (set_all (p_set_after P) e attrs') log)
-  end.
-
-Definition main_handler_pm (P : params) (W : world) (ri : rinfo) (st : state) : outcome * state :=
-  match ri_root_raise ri with
-  | Some e => (Raise e, st)
-  | None =>
-      let rq := ri_req ri in
-      let '(res, evs, a) :=
-        comps_loop P W true (ri_deny ri) site_main ctx_resource id_h_pme rq
-          (find_views (w_reg W) view_classifier (q_req_sro rq) (q_ctx_sro rq) (q_view_name rq)) None (st_attrs st) [] in
-      (match res with Some o => o | None => Raise id_h_nf end, mkSt a (st_log st ++ evs))
-  end.
-
-(* the three tweens, generic in the two functions above *)
-Definition under_tween_g (W : world) (ri : rinfo) (mh : state -> outcome * state)
-    (ievf : N -> bool -> bool -> N -> state -> outcome * state) (st : state) : outcome * state :=
-  match ri_under ri with
-  | UPass => mh st
-  | URaise e => (Raise e, st)
-  | UCatch rr sec thn =>
-      let '(o, st1) := mh st in
-      let '(o2, st2) :=
-        match o with
-        | Raise e =>
-            if isa W cn_Exception e then
-              let '(o2, st2) := ievf site_under rr sec e st1 in
-              (o2, add_log st2 (EIev e (snap (st_attrs st1)) o2 (snap (st_attrs st2))))
-            else (o, st1)
-        | Resp _ => (o, st1)
-        end in
-      match o2, thn with
-      | Resp _, Some e2 => (Raise e2, st2)
-      | _, _ => (o2, st2)
-      end
-  end.
-
-Definition excview_tween_g (P : params) (W : world)
-    (ievf : N -> bool -> bool -> N -> state -> outcome * state) (o : outcome) (st : state) : outcome * state :=
-  match o with
-  | Resp r => (Resp r, st)
-  | Raise e =>
-      if isa W (p_tween_catches P) e then
-        match ievf site_tween false true e st with
-        | (Resp r, st') => (Resp r, st')
-        | (Raise e2, st') =>
-            if isa W (p_handler_catches P) e2
-            then (Raise (if p_handler_reraises P then e else e2), st')
-            else (Raise e2, st')
-        end
-      else (Raise e, st)
-  end.
-
-Definition run_request_g (P : params) (W : world) (ri : rinfo) (mh : state -> outcome * state)
-    (ievf : N -> bool -> bool -> N -> state -> outcome * state) : list event :=
-  let st0 := mkSt (init_attrs ri) [] in
-  let '(o1, st1) := under_tween_g W ri mh ievf st0 in
-  let st1 := add_log st1 (EProbe o1 (snap (st_attrs st1))) in
-  let '(o2, st2) := excview_tween_g P W ievf o1 st1 in
-  st_log st2 ++ [EFinal o2 (snap (st_attrs st2)) (aget hn_exception (st_attrs st2))].
-
-Definition run_request_pm (P : params) (W : world) (ri : rinfo) : list event :=
-  run_request_g P W ri (main_handler_pm P W ri) (iev_pm P W ri).
-
-(* ------------------------------------------------------------------ *)
-(* the property as an executable judge of an observed trace.
-   [sregs]: the registrations the property speaks about (user directives + the default exception-response
-   views), [W]: bodies and exception table, [ri]: the request. *)
-
-Definition opt_N_eqb (a b : option N) : bool :=
-  match a, b with Some x, Some y => N.eqb x y | None, None => true | _, _ => false end.
-Fixpoint snap_eqb (a b : snapshot) : bool :=
-  match a, b with
-  | [], [] => true
-  | x :: a', y :: b' => opt_N_eqb x y && snap_eqb a' b'
-  | _, _ => false
-  end.
-Definition resp_eqb (a b : resp) : bool :=
-  match a, b with RView x, RView y => N.eqb x y | RExc x, RExc y => N.eqb x y | _, _ => false end.
-Definition outcome_eqb (a b : outcome) : bool :=
-  match a, b with Resp x, Resp y => resp_eqb x y | Raise x, Raise y => N.eqb x y | _, _ => false end.
-
-(* the snapshot the exception view must see: response hidden, exc_info and exception = the raised object *)
-Definition seen_snapshot (e : N) : snapshot := [None; Some e; Some e].
-(* the snapshot afterwards: response as before, exc_info and exception = the raised object *)
-Definition after_snapshot (before : snapshot) (e : N) : snapshot :=
-  [match before with r :: _ => r | [] => None end; Some e; Some e].
-
-(* what one allowed winner [t] must have produced.
-   [rr]: None = the excview tween; Some b = a direct invoke_exception_view(reraise=b) call; [sec]: secure=.
-   [mid]: the view-body events of the rendering. *)
-Definition judge_winner (W : world) (ri : rinfo) (rr : option bool) (sec : bool)
-    (e : N) (before : snapshot) (mid : list event) (o : outcome) (after : snapshot) (t : N) : bool :=
-  let b := body_of (w_bodies W) t in
-  if sec && b_perm b && ri_deny ri then
-    (* the policy refuses the secured exception view: its body does not run, the attributes are restored and the
-       refusal (a framework-made HTTPForbidden) is what propagates -- it does not enter 403 handling *)
-    match mid with [] => true | _ => false end
-    && snap_eqb after before
-    && match rr with
-       | Some true => outcome_eqb o (Raise e)
-       | _ => match o with Raise x => N.leb 1000 x && isa W cn_HTTPForbidden x | _ => false end
-       end
-  else
-    match mid with
-    | EBody t' c s :: rest =>
-        let single := match rest with [] => true | _ => false end in
-        N.eqb t' t && N.eqb c e && snap_eqb s (seen_snapshot e)
-        && match b_act b with
-           | ARet => single && outcome_eqb o (Resp (RView t)) && snap_eqb after (after_snapshot before e)
-           | ARetCtx =>
-               if N.eqb (status_of W e) 0 then true     (* not a response: the property is silent *)
-               else single && outcome_eqb o (Resp (RExc e)) && snap_eqb after (after_snapshot before e)
-           | ARaise v =>
-               (* the view itself failed: its exception is the one that propagates and the attributes are
-                  restored -- except an HTTPNotFound, which the code cannot tell from "no view applies" (a
-                  PredicateMismatch even makes the search go on: further bodies may run) *)
-               if isa W cn_HTTPNotFound v then true
-               else single && snap_eqb after before
-                    && match rr with
-                       | Some true => outcome_eqb o (Raise (if isa W cn_Exception v then e else v))
-                       | _ => outcome_eqb o (Raise v)
-                       end
-           end
-    | _ => false
-    end.
-
-Definition judge_render (sregs : list reg) (W : world) (ri : rinfo) (rr : option bool) (sec : bool)
-    (e : N) (before : snapshot) (mid : list event) (o : outcome) (after : snapshot) : bool :=
-  let ws := spec_winners exc_classifier_id sregs (exc_request spec_params W ri e) in
-  match ws with
-  | [] =>
-      (* no exception view applies: nothing ran, the attributes are as before, the same object propagates
-         (a direct call without reraise raises a framework-made HTTPNotFound instead) *)
-      match mid with [] => true | _ => false end
-      && snap_eqb after before
-      && match rr with
-         | None | Some true => outcome_eqb o (Raise e)
-         | Some false => match o with
-                         | Raise x => N.leb 1000 x && isa W cn_HTTPNotFound x
-                         | _ => false end
-         end
-  | _ => existsb (fun w => judge_winner W ri rr sec e before mid o after (r_tag w)) ws
-  end.
-
-Definition is_exc_body (ev : event) : bool :=
-  match ev with EBody _ c _ => negb (N.eqb c ctx_resource) | _ => false end.
-
-(* events before the probe: ordinary bodies, then (for a catching tween) exception-view bodies + EIev *)
-Fixpoint judge_under (sregs : list reg) (W : world) (ri : rinfo) (rr sec : bool) (mid : list event) (l : list event)
-    : bool :=
-  match l with
-  | [] => true
-  | EIev e before o after :: r =>
-      judge_render sregs W ri (Some rr) sec e before (rev mid) o after && judge_under sregs W ri rr sec [] r
-  | ev :: r => if is_exc_body ev then judge_under sregs W ri rr sec (ev :: mid) r else judge_under sregs W ri rr sec mid r
-  end.
-
-Fixpoint split_probe (l : list event) (acc : list event) : option (list event * outcome * snapshot * list event) :=
-  match l with
-  | [] => None
-  | EProbe o s :: r => Some (rev acc, o, s, r)
-  | ev :: r => split_probe r (ev :: acc)
-  end.
-
-Definition sec_of (u : under_prog) : bool := match u with UCatch _ sec _ => sec | _ => true end.
-Definition rr_of (u : under_prog) : bool := match u with UCatch rr _ _ => rr | _ => false end.
-
-(* [tolerant]: direct invoke_exception_view(secure=False) calls are not judged (known finding
-   C14-permissive-skips-predicates) *)
-Definition judge_gen (tolerant : bool) (sregs : list reg) (W : world) (ri : rinfo) (evs : list event) : bool :=
-  match split_probe evs [] with
-  | None => false
-  | Some (pre, o1, s1, post) =>
-      match rev post with
-      | EFinal o2 s2 fin :: rmid =>
-          let mid := rev rmid in
-          ((tolerant && negb (sec_of (ri_under ri)))
-           || judge_under sregs W ri (rr_of (ri_under ri)) (sec_of (ri_under ri)) [] pre)
-          && opt_N_eqb fin (nth 2 s2 None)
-          && match o1 with
-             | Resp r => match mid with [] => true | _ => false end && outcome_eqb o2 o1 && snap_eqb s2 s1
-             | Raise e =>
-                 if isa W cn_Exception e then judge_render sregs W ri None true e s1 mid o2 s2
-                 else match mid with [] => true | _ => false end && outcome_eqb o2 o1 && snap_eqb s2 s1
-             end
-      | _ => false
-      end
-  end.
-
-Definition judge := judge_gen false.
-
-(* ------------------------------------------------------------------ *)
-(* executable form of the premises of the lookup theorem (C03's key_order / key_faithful: registrations with the
-   same slot and phash -- overrides -- have the same order and the same predicate texts; no phash collision),
-   evaluated on every generated world so that the evidence says how often the theorem applies *)
-Definition same_key (a b : reg) : bool := slot_eqb (r_slot a) (r_slot b) && text_eqb (r_phash a) (r_phash b).
-Definition key_pair_ok (a b : reg) : bool :=
-  negb (same_key a b)
-  || (Z.eqb (r_order a) (r_order b) && texts_eqb (map pred_phash (r_preds a)) (map pred_phash (r_preds b))).
-Definition key_ok_b (regs : list reg) : bool := forallb (fun a => forallb (key_pair_ok a) regs) regs.
-Fixpoint nodupN (l : list N) : bool := match l with [] => true | x :: r => negb (memN x r) && nodupN r end.
-Definition premises_b (regs : list reg) (W : world) (ri : rinfo) : bool :=
-  key_ok_b regs
-  && forallb (fun v => match r_accept v with None => true | Some _ => false end) regs
-  && forallb (fun v => Nat.leb (n_preds v) 400) regs
-  && nodupN (ri_comb_sro ri) && nodupN (ri_unrouted_sro ri)
-  && forallb (fun x => nodupN (x_sro x)) (w_excs W).
-
-(* ------------------------------------------------------------------ *)
-(* wire glue *)
-
-Definition get_action (v : val) : option action :=
-  match v with
-  | VL [VI 0%Z] => Some ARet
-  | VL [VI 1%Z] => Some ARetCtx
-  | VL [VI 2%Z; VI e] => Some (ARaise (Z.to_N e))
-  | _ => None
-  end.
-Definition get_body (v : val) : option body :=
-  match v with
-  | VL [t; a; p] => olet t := get_bool t in olet a := get_action a in olet p := get_bool p in Some (mkBody t a p)
-  | _ => None
-  end.
-Definition get_directive (v : val) : option directive :=
-  match v with
-  | VI 0%Z => Some DView | VI 1%Z => Some DExcView | VI 2%Z => Some DNotFound | VI 3%Z => Some DForbidden
-  | _ => None
-  end.
-Definition get_decl (v : val) : option vdecl :=
-  match v with
-  | VL [dir; ctx; xonly; isexc; args; phase; bd] =>
-      olet dir := get_directive dir in olet ctx := get_opt get_N ctx in olet xonly := get_bool xonly in
-      olet isexc := get_bool isexc in olet args := get_args args in olet phase := get_N phase in
-      olet bd := get_body bd in
-      Some (mkDecl dir ctx xonly isexc args phase bd)
-  | _ => None
-  end.
-Definition get_exc (v : val) : option exc :=
-  match v with
-  | VL [i; sro; isa; st] =>
-      olet i := get_N i in olet sro := get_Ns sro in olet isa := get_texts isa in olet st := get_N st in
-      Some (mkExc i sro isa st)
-  | _ => None
-  end.
-Definition get_under (v : val) : option under_prog :=
-  match v with
-  | VL [VI 0%Z] => Some UPass
-  | VL [VI 1%Z; VI e] => Some (URaise (Z.to_N e))
-  | VL [VI 2%Z; rr; sec; thn] =>
-      olet rr := get_bool rr in olet sec := get_bool sec in olet thn := get_opt get_N thn in Some (UCatch rr sec thn)
-  | _ => None
-  end.
-Definition get_rinfo (v : val) : option (N * rinfo) :=
-  match v with
-  | VL [ph; rq; comb; unr; deny; rootr; und; pre] =>
-      olet ph := get_N ph in olet rq := get_request rq in olet comb := get_Ns comb in olet unr := get_Ns unr in
-      olet deny := get_bool deny in
-      olet rootr := get_opt get_N rootr in olet und := get_under und in olet pre := get_opt get_N pre in
-      Some (ph, mkRI rq comb unr deny rootr und pre)
-  | _ => None
-  end.
-Definition get_named (v : val) : option named :=
-  get_list_of (fun e => match e with VL [VT k; i] => olet i := get_N i in Some (k, i) | _ => None end) v.
-
-Definition put_snap (s : snapshot) : val := VL (map (vopt vN) s).
-Definition put_outcome (W : world) (o : outcome) : val :=
-  match o with
-  | Resp (RView t) => VL [VI 0; vN t]
-  | Resp (RExc e) => VL [VI 1; vN e; vN (status_of W e)]
-  | Raise e => VL [VI 2; vN e]
-  end.
-Definition put_event (W : world) (ev : event) : val :=
-  match ev with
-  | EBody t c s => VL [VI 0; vN t; vN c; put_snap s]
-  | EIev e b o a => VL [VI 1; vN e; put_snap b; put_outcome W o; put_snap a]
-  | EProbe o s => VL [VI 2; put_outcome W o; put_snap s]
-  | EFinal o s f => VL [VI 3; put_outcome W o; put_snap s; vopt vN f]
-  end.
-
-Definition get_snap (v : val) : option snapshot := get_list_of (get_opt get_N) v.
-Definition get_outcome (v : val) : option outcome :=
-  match v with
-  | VL [VI 0%Z; VI t] => Some (Resp (RView (Z.to_N t)))
-  | VL [VI 1%Z; VI e; VI _] => Some (Resp (RExc (Z.to_N e)))
-  | VL [VI 2%Z; VI e] => Some (Raise (Z.to_N e))
-  | _ => None
-  end.
-Definition get_event (v : val) : option event :=
-  match v with
-  | VL [VI 0%Z; VI t; VI c; s] => olet s := get_snap s in Some (EBody (Z.to_N t) (Z.to_N c) s)
-  | VL [VI 1%Z; VI e; b; o; a] =>
-      olet b := get_snap b in olet o := get_outcome o in olet a := get_snap a in Some (EIev (Z.to_N e) b o a)
-  | VL [VI 2%Z; o; s] => olet o := get_outcome o in olet s := get_snap s in Some (EProbe o s)
-  | VL [VI 3%Z; o; s; f] =>
-      olet o := get_outcome o in olet s := get_snap s in olet f := get_opt get_N f in Some (EFinal o s f)
-  | _ => None
-  end.
-
-(* status codes in an observed trace must be those of the exception table *)
-Definition status_ok (W : world) (v : val) : bool :=
-  match v with
-  | VL [VI 1%Z; VI e; VI st] => Z.eqb st (Z.of_N (status_of W (Z.to_N e)))
-  | _ => true
-  end.
-Definition event_status_ok (W : world) (v : val) : bool :=
-  match v with
-  | VL [VI 1%Z; _; _; o; _] => status_ok W o
-  | VL [VI 2%Z; o; _] => status_ok W o
-  | VL [VI 3%Z; o; _; _] => status_ok W o
-  | _ => true
-  end.
+(* the pipeline built from the REGENERATED functions (Gen/Facts_C14.v): this is what the correspondence run executes *)
+Definition run_request_gen (P : params) (W : world) (ri : rinfo) : list event :=
+  run_request_x W ri (main_handler_pm P W ri) (gen_iev P W ri) (gen_excview_tween P W ri site_tween).
 
 (* case = [named; [decl ...]; [exc ...]; [rinfo ...]; observed]   observed = [] or [[event ...] per request]
    answer = [[model trace; judge of the model trace; judge of the observed trace (1/0; 2 when none given);
               winners (tags) of the exception arriving at the excview tween in the model;
-              the tolerant judge of the observed trace; the premises of the judge theorem hold (computed)] per request] *)
+              the tolerant judge of the observed trace; the premises of the judge theorem hold (computed);
+              the trace of the hand-written reference pipeline] per request] *)
 Definition run_C14 (v : val) : val :=
   ret_or_bad (
     match v with
     | VL [nm; decls; excs; reqs; observed] =>
         olet nm := get_named nm in
-        olet decls := get_list_of get_decl decls in
+        olet decls := get_list_of (get_decl gen_isexception) decls in
         olet excs := get_list_of get_exc excs in
         olet reqs := get_list_of get_rinfo reqs in
         olet observed := get_list_of get_list observed in
@@ -840,7 +39,8 @@ Definition run_C14 (v : val) : val :=
            let W := mkWorld (register_all accept_order_default (regs_upto code_params names nm decls ph)) bodies excs in
            let SW := mkWorld reg_empty sbodies excs in
            let sregs := regs_upto spec_params names nm decls ph in
-           let tr := run_request_pm code_params W ri in
+           let tr := run_request_gen code_params W ri in
+           let tr_ref := run_request_pm code_params W ri in
            let arriving := match split_probe tr [] with
                            | Some (_, Raise e, _, _) =>
                                put_tags (spec_winners exc_classifier_id sregs (exc_request spec_params SW ri e))
@@ -864,7 +64,8 @@ Definition run_C14 (v : val) : val :=
                    end
                | None => VI 2
                end;
-               vbool (premises_b sregs SW ri)])
+               vbool (premises_b sregs SW ri);
+               VL (map (put_event W) tr_ref)])
            (combine (seq 0 (length reqs)) reqs)))
     | _ => None
     end).
